@@ -445,7 +445,7 @@ func newRig() *rig {
 }
 
 var dirtyReqs = []string{
-	"POST /dirty/v1/a/b?dq=1&dq=2 HTTP/1.1\r\nHost: dirty.example\r\nContent-Type: application/x-www-form-urlencoded\r\nCookie: dc=1; dd=2\r\nX-Dirty: yes\r\nUser-Agent: dirty-agent\r\nContent-Length: 7\r\n\r\nf=1&g=2",
+	"POST /dirty/v1/a/b?dq=secret1&dq=secret2&dr=secret3&ds=secret4 HTTP/1.1\r\nHost: dirty.example\r\nContent-Type: application/x-www-form-urlencoded\r\nCookie: dc=1; dd=2\r\nX-Dirty: yes\r\nUser-Agent: dirty-agent\r\nContent-Length: 32\r\n\r\nf=secretf&g=secretg&h=secreth&i=",
 	"HEAD /dirty/v2/h HTTP/1.1\r\nHost: dirty.example\r\nX-Dirty: head\r\n\r\n",
 	"PUT /dirty/v3/c HTTP/1.1\r\nHost: dirty.example\r\nTransfer-Encoding: chunked\r\nTrailer: X-Tr\r\nContent-Type: multipart/form-data; boundary=b\r\n\r\n3b\r\n--b\r\nContent-Disposition: form-data; name=\"a\"\r\n\r\nv\r\n--b--\r\n\r\n0\r\nX-Tr: tv\r\n\r\n",
 	"POST /dirty/v4/j HTTP/1.1\r\nHost: dirty.example\r\nContent-Type: application/json\r\nExpect: 100-continue\r\nContent-Length: 7\r\n\r\n{\"a\":1}",
@@ -454,6 +454,8 @@ var probeReqs = []string{
 	"GET /x/../probe?pq=1 HTTP/1.1\r\nHost: probe.example\r\nX-Probe: 1\r\nCookie: pc=1; pd=2\r\n\r\n",
 	"POST /not/./a//route?pq=1 HTTP/1.1\r\nHost: probe.example\r\nX-Probe: 1\r\nCookie: pc=3\r\nContent-Type: application/x-www-form-urlencoded\r\nContent-Length: 9\r\n\r\npf=1&pg=2",
 	"PUT /probe HTTP/1.1\r\nHost: probe.example\r\nContent-Type: multipart/form-data; boundary=pb\r\nContent-Length: 62\r\n\r\n--pb\r\nContent-Disposition: form-data; name=\"pm\"\r\n\r\nv\r\n--pb--\r\n",
+	// keys without '=' and empty values in every position: a recycled key/value slot must not lend them its old value
+	"POST /probe?flag&pq=&other&last HTTP/1.1\r\nHost: probe.example\r\nX-Probe: 1\r\nCookie: bare; pc=; pd\r\nX-Empty:\r\nContent-Type: application/x-www-form-urlencoded\r\nContent-Length: 12\r\n\r\npf&pg=&ph&pi",
 }
 
 var (
